@@ -280,3 +280,20 @@ package keeper
 //@   pure
 //@   requires beaParamsSet(bea_store) && validDenom(beaParams(bea_store).Denom)
 //@   ensures c.Denom == beaParams(bea_store).Denom && !isnil(c.Amount) && Amt(c) == beaParams(bea_store).FeePurchaseStorage
+
+// ================================================================ list query (C20): the callback handed to the SDK pagination
+//
+// The pagination library (assumed: visits every key under the prefix once, in key order, and partitions the accepted
+// items into pages) calls this function literal with each stored value.  It is a function of (value, request) only -
+// in particular the accept/skip answer does not depend on `accumulate` - accepts exactly the registrations matching
+// the owner and moniker filters, and collects the decoded value, which is what the point query returns for that id.
+//@ func Keeper.BeaconsFiltered$1(key, value, accumulate) (hit, err)
+//@   props C20
+//@   let v := decodeBeacon(value)
+//@   pure
+//@   nopanic
+//@   ensures @filter_exact err == nil ==> hit == ((len(req.Owner) == 0 || v.Owner == req.Owner) && (len(req.Moniker) == 0 || v.Moniker == req.Moniker))
+//@   ensures @owner_filter_wellformed err == nil && len(req.Owner) > 0 ==> validBech32(req.Owner)
+//@   ensures @collected_when_accepted err == nil && hit && accumulate ==> len(beacons) == len(old(beacons)) + 1 && beacons[len(old(beacons))] == v
+//@   ensures @earlier_items_kept forall j int :: {beacons[j]} 0 <= j && j < len(old(beacons)) ==> beacons[j] == old(beacons)[j]
+//@   ensures @nothing_collected_otherwise !(err == nil && hit && accumulate) ==> len(beacons) == len(old(beacons))
